@@ -18,6 +18,8 @@ def _impl(a):
 def _judge(a, out):
     """Spec (C17) on the observed states: running <=> all configured ports held; not running => none held; after a failed start the
     held set is what it was; after stop nothing is delivered."""
+    if "NOT-RUN" in out:
+        return []
     if "HARNESS-TIMEOUT" in out:
         return [("c06gate -", out)]     # the real object never came back: judged as a failure of the property, not of the machine
     lines = []
@@ -44,6 +46,20 @@ def _judge(a, out):
     return lines or [("c06gate -", "0")]
 
 
+def _in_domain(acts):
+    """the bridge is carried over to another event loop only while it is stopped (a running bridge belongs to the loop it was
+    started under; what happens to it when that loop is abandoned is not part of the property)"""
+    maybe_running = False
+    for a in acts:
+        if a in ("start", "enter"):
+            maybe_running = True
+        elif a in ("stop", "leave") or a.startswith("sstop:"):
+            maybe_running = False
+        elif a == "newloop" and maybe_running:
+            return False
+    return True
+
+
 def _known(a, out):
     """F9 (open): port 0 configured and a start while running - the second start binds a second system-chosen socket"""
     if not any(x.startswith("zero:") for x in a["acts"]) or not C.finding_open("F9"):
@@ -68,10 +84,10 @@ def known_witness(entry):
     return hits or None
 
 
-LIFE = C.Kind("bridge-life", impl=_impl, model=lambda a: f"blife {a['ports']} " + " ".join(a["acts"]), judge=_judge, known=_known,
+LIFE = C.Kind("bridge-life", impl=_impl, model=lambda a: f"blife {a['ports']} " + " ".join(a["acts"]), judge=_judge, known=_known, compare=lambda m, i: "NOT-RUN" in i or m == i,
               classify=lambda a, o: f"ports{a['ports']}:len{len(a['acts']) // 5 * 5}:{'fail' if 'raise' in o else 'nofail'}",
               nontrivial=lambda a, o: (a["ports"], tuple(a["acts"])),
-              shrink=lambda a: [dict(a, acts=a["acts"][:i] + a["acts"][i + 1:]) for i in range(len(a["acts"]))])
+              shrink=lambda a: [c for c in (dict(a, acts=a["acts"][:i] + a["acts"][i + 1:]) for i in range(len(a["acts"]))) if _in_domain(c["acts"])])
 KINDS = {"bridge-life": LIFE}
 
 
